@@ -252,7 +252,9 @@ fn classify(op: Op, cfg: &Cfg, exp: &Snap, got: &Snap, exp_res: &str, got_res: &
         // a node left behind by an invalidation still carries its key and stamp: a later expiry scan removes BY KEY whatever is then
         // in the map under it (a re-inserted entry), so for the invalidating operations this is also C07 / C05
         let inval = matches!(op, Op::Invalidate(_) | Op::InvalidateAll | Op::InvalidateIf(_));
-        return Some(Finding { tags: if inval { "C11,C08,C07,C05" } else { "C11,C08" }, what: format!("list/map structure: {}", errs.join("; ")) });
+        // ... and whatever operation leaves such a node behind: when it reaches the front of an expiry scan or the cold end of
+        // the recency list, the removal BY KEY takes out a live, re-inserted entry of that key (C03)
+        return Some(Finding { tags: if inval { "C11,C08,C07,C05,C03" } else { "C11,C08,C03" }, what: format!("list/map structure: {}", errs.join("; ")) });
     }
     if exp_res != got_res {
         return Some(Finding { tags: if expiry { "C01,C05,C06,C03" } else { "C01,C03,C07" }, what: format!("result of {:?}: expected {} got {}", op, exp_res, got_res) });
